@@ -552,9 +552,9 @@ def run(ctx: Ctx):
         coq_make(["Model/ParserCheck.vo"])
 
     g = Gen(r)
-    n_valid = 500 if quick else 6000
-    n_garbage = 300 if quick else 4000
-    n_butler = 700 if quick else 9000
+    n_valid = 320 if quick else 5000
+    n_garbage = 250 if quick else 4000
+    n_butler = 600 if quick else 8000
     if not props_ok:           # something no longer checks: deepen the search (DESIGN 1.3 step 4)
         n_valid, n_garbage, n_butler = max(n_valid, 3000), max(n_garbage, 2000), max(n_butler, 4000)
         ctx.cov["search"] = "obligations broke: generator budget raised to the thorough size for the failing-input search"
@@ -690,10 +690,9 @@ def run(ctx: Ctx):
                             "a string outside the documented grammar was accepted and given a meaning")
         # ---- Coq cases
         try:
-            parse_cases.append(f"(mkp {ccodes(s)} {ctimes(rec['times'])} {cobs(rec)})")
             meta_p.append({"s": s, "kind": c["kind"], "real": drop_time_info(tree) if tree else rec.get("exc_type", "None")})
-            lex_cases.append(f"(mkl {ccodes(s)} {clist(ctoken(t) for t in rec['tokens'])})")
-            meta_l.append({"s": s, "tokens": rec["tokens"]})
+            lex_cases.append(f"(mkl {ccodes(s)} {ctimes(rec['times'])} {clist(ctoken(t) for t in rec['tokens'])} {cobs(rec)})")
+            meta_l.append({"s": s, "tokens": rec["tokens"], "real": drop_time_info(tree) if tree else rec.get("exc_type", "None")})
             if tree is not None and "str" in rec:
                 print_cases.append(f"(mkr {ctree(tree)} {clist(f'({cs(k)}, {cs(v)})' for k, v in tshow.items() if has_node(tree, ('Time',)))} {ccodes(rec['str'])})")
                 meta_pr.append({"s": s, "str": rec["str"]})
@@ -709,10 +708,9 @@ def run(ctx: Ctx):
 
     hdr = ("From Coq Require Import ZArith List String NArith.\nFrom V Require Import Model.ExprTree Model.Lexer Model.Parser Model.ParserCheck.\n"
            "Import ListNotations.\n"
-           "Definition mkp (c : list N) (t : list (string * option string)) (o : obs) := (c, t, o).\n"
-           "Definition mkl (c : list N) (t : list token) := (c, t).\n"
+           "Definition mkl (c : list N) (t : list (string * option string)) (k : list token) (o : obs) := (c, t, k, o).\n"
            "Definition mkr (t : tree) (tb : list (string * string)) (c : list N) := (t, tb, c).\n")
-    for name, cs_, chk, meta in (("lex", lex_cases, "chk_lex", meta_l), ("parse", parse_cases, "chk_parse", meta_p), ("print", print_cases, "chk_print", meta_pr)):
+    for name, cs_, chk, meta in (("lex_parse", lex_cases, "chk_lex_parse", meta_l), ("print", print_cases, "chk_print", meta_pr)):
         bad = ctx.coq_cases(name, hdr, cs_, chk, shard=500)
         for i in (bad or [])[:6]:
             ctx.disagreement(name, meta[i], "model differs from the implementation")
